@@ -101,3 +101,31 @@ def dominated(chk, P, fname, unit, targets, fact, rule, what, min_inst=1, track_
     if n < min_inst:
         chk.broke("%s: only %d target sites in %s (expected >= %d)" % (rule, n, fname, min_inst))
     return n
+
+
+def unreachable_under(chk, P, fname, unit, envs, callee, rule, construct, detail, split=None):
+    """no call of `callee` in function fname is reachable under any of the seeded environments (seeded constant
+    propagation over the CFG; only the seeded keys are tracked, every other test is explored both ways)"""
+    import peval
+    f = P.need_func(fname, unit)
+    targets = set(c["id"] for c in f.calls(callee))
+    if not chk.need(bool(targets), "%s: %s no longer calls %s" % (rule, fname, callee)):
+        return 0
+    hit = []
+    def obs(n, env):
+        if n["id"] in targets:
+            hit.append((n, dict(env)))
+    envs = list(envs)
+    track = set(k for e in envs for k in e)
+    try:
+        peval.PathEval(P, f, envs[0], is_effect=lambda *a: False, through_effects=True, observe=obs, starts=envs[1:], track=track, split=split, maxstates=100000).run()
+    except AnalysisBroken as e:
+        chk.broke("%s: %s not evaluable (%s)" % (rule, fname, e))
+        return 0
+    ok = not hit
+    why = detail
+    if hit:
+        n, env = hit[0]
+        why += " -- but %s() at %s is reachable with %s" % (callee, f.loc(n), {k: v for k, v in env.items() if k in track})
+    chk.inst(rule, f, construct, ok, why, loc=f.loc(f.nodes[sorted(targets)[0]]))
+    return 1
